@@ -86,6 +86,9 @@ def decorate(rng, c):
     r = rng.random()
     perm = occ[:]
     rng.shuffle(perm)
+    if not occ:                      # a circuit without any operation (only empty sub-circuits): nothing to order or label
+        c['order'], c['okind'], c['labels'] = None, 'none', None
+        return c
     if r < 0.25:
         c['order'], c['okind'] = None, 'none'
     elif r < 0.50:
